@@ -295,7 +295,134 @@ fn space_timed(cs: &mut Vec<Case>, class: &'static str) {
 
 // ---------------------------------------------------------------------------------------------
 // C. progress: waiter kind x releasing event x phase of the waiter
+// C'. a blocking operation issued at THREAD EXIT, from the destructor of one of the program's own thread-locals, on
+// a thread that an earlier blocking operation has already parked: whatever the channel keeps per thread must still
+// work there (thread-local destructors run in reverse order of first use). The case does not go through the
+// recorder (the call happens inside a destructor): the thread writes down what the call returned.
+struct AtExit(Option<Box<dyn FnOnce()>>);
+impl Drop for AtExit {
+    fn drop(&mut self) {
+        if let Some(f) = self.0.take() {
+            f()
+        }
+    }
+}
+thread_local! {
+    static AT_EXIT: std::cell::RefCell<AtExit> = std::cell::RefCell::new(AtExit(None));
+}
+fn progress_thread_exit<T: Payload>(c: &Case, cx: &mut Ctx) -> Outcome {
+    let recv_side = c.b % 2 == 0;
+    let asyncf = c.d & 4 == 4;
+    let l = payload::ledger();
+    l.reset();
+    let (s, r) = kverif::exec::new_chan::<T>(Some(0), asyncf);
+    let out: Arc<std::sync::Mutex<Vec<String>>> = Arc::new(std::sync::Mutex::new(vec![]));
+    let stage = Arc::new(std::sync::atomic::AtomicUsize::new(0));
+    let mk = |t: u64| T::make(payload::FIRST_UNIQUE + t, payload::pattern(c.seed ^ t));
+    let th = {
+        let (s2, r2) = (s.clone_as(false), r.clone_as(false));
+        let (out, stage) = (out.clone(), stage.clone());
+        let v1 = mk(1);
+        let v2 = mk(2);
+        std::thread::Builder::new()
+            .stack_size(256 * 1024)
+            .spawn(move || {
+                let out2 = out.clone();
+                let stage2 = stage.clone();
+                // 1. the program's own thread-local (with a destructor) is touched first ...
+                let at_exit: Box<dyn FnOnce()> = if recv_side {
+                    let r3 = r2.clone_as(false);
+                    Box::new(move || {
+                        stage2.store(3, Ordering::Release);
+                        let res = std::panic::catch_unwind(std::panic::AssertUnwindSafe(|| r3.sy().recv().map(|v| v.tag()).map_err(|e| format!("{:?}", e))));
+                        out2.lock().unwrap().push(format!("{:?}", res.map_err(|_| "PANICKED")));
+                    })
+                } else {
+                    let s3 = s2.clone_as(false);
+                    Box::new(move || {
+                        stage2.store(3, Ordering::Release);
+                        let res = std::panic::catch_unwind(std::panic::AssertUnwindSafe(|| s3.sy().send(v2).map_err(|e| format!("{:?}", e))));
+                        out2.lock().unwrap().push(format!("{:?}", res.map_err(|_| "PANICKED")));
+                    })
+                };
+                AT_EXIT.with(|a| a.borrow_mut().0 = Some(at_exit));
+                // 2. ... then a blocking operation that really parks ...
+                stage.store(1, Ordering::Release);
+                let first = if recv_side {
+                    drop(v1);
+                    format!("{:?}", r2.sy().recv().map(|v| v.tag()).map_err(|e| format!("{:?}", e)))
+                } else {
+                    format!("{:?}", s2.sy().send(v1).map_err(|e| format!("{:?}", e)))
+                };
+                out.lock().unwrap().push(first);
+                stage.store(2, Ordering::Release);
+                // 3. ... and the thread ends: AT_EXIT's destructor issues the second blocking operation
+            })
+            .unwrap()
+    };
+    // main: complete the first operation once it is registered (and has had time to park), then the second one
+    let waiters = |n: usize| if recv_side { s.sy().verif_waiters().0 == n } else { r.sy().verif_waiters().0 == n };
+    let t0 = std::time::Instant::now();
+    let grace = Duration::from_secs(20);
+    let mut got: Vec<u64> = vec![];
+    for round in 0..2 {
+        while !waiters(1) {
+            if t0.elapsed() > grace {
+                let _ = s.sy().close();
+                let _ = th.join();
+                return Outcome::Inconclusive("the thread-exit scenario did not reach its blocking call".into());
+            }
+            std::thread::yield_now();
+        }
+        // let it get past its spin phase and park (steering only, never a verdict)
+        std::thread::sleep(Duration::from_millis(if cfg!(miri) { 0 } else { 3 }));
+        if recv_side {
+            let v = mk(10 + round);
+            let tag = v.tag();
+            if !matches!(s.sy().try_send(v), Ok(true)) {
+                let _ = s.sy().close();
+                let _ = th.join();
+                return Outcome::Violated(vec![("C06".into(), format!("try_send with a registered receiver (round {}) was not taken", round))]);
+            }
+            got.push(tag);
+        } else {
+            match r.sy().try_recv() {
+                Ok(Some(v)) => got.push(v.tag()),
+                o => {
+                    let o = format!("{:?}", o.map(|x| x.map(|v| v.tag())));
+                    let _ = s.sy().close();
+                    let _ = th.join();
+                    return Outcome::Violated(vec![("C06".into(), format!("try_recv with a registered sender (round {}) returned {}", round, o))]);
+                }
+            }
+        }
+    }
+    // the thread (including its thread-local destructors) must finish now
+    while !th.is_finished() {
+        if t0.elapsed() > grace {
+            return Outcome::Violated(vec![("C06".into(), format!("a blocking {} issued from a thread-local destructor at thread exit was completed by its peer but never returned (results so far: {:?})", if recv_side { "recv" } else { "send" }, out.lock().unwrap()))]);
+        }
+        std::thread::yield_now();
+    }
+    let _ = th.join();
+    let res = out.lock().unwrap().clone();
+    drop((s, r));
+    cell(cx, format!("progress/thread-exit/{}/{}", if recv_side { "Recv" } else { "Send" }, T::NAME));
+    let want: Vec<String> = if recv_side { got.iter().map(|t| format!("Ok({})", t)).collect() } else { vec!["Ok(())".to_string(), "Ok(Ok(()))".to_string()] };
+    let ok = if recv_side { res.len() == 2 && res[0] == want[0] && res[1] == format!("Ok({})", want[1]) } else { res.len() == 2 && res[0] == want[0] && res[1] == want[1] };
+    if !ok {
+        return Outcome::Violated(vec![("C06".into(), format!("blocking {} calls of a thread, the second one issued from a thread-local destructor at thread exit: returned {:?}, the reference channel gives two successes (values handed over: {:?})", if recv_side { "recv" } else { "send" }, res, got))]);
+    }
+    if T::DROPS && l.bad.load(Ordering::Relaxed) != 0 {
+        return Outcome::Violated(vec![("C05".into(), "thread-exit scenario: the ledger saw a double or invalid drop".into())]);
+    }
+    Outcome::Held
+}
+
 fn fam_progress<T: Payload>(c: &Case, cx: &mut Ctx) -> Outcome {
+    if c.a >= 8 {
+        return progress_thread_exit::<T>(c, cx);
+    }
     let kinds = [Op::Recv, Op::Send, Op::ARecv, Op::ASend, Op::RecvTimeout(LONG_US), Op::SendTimeout(LONG_US), Op::SendOptTimeout(LONG_US), Op::StreamNext];
     let wk = kinds[c.a as usize % 8];
     let recv_side = wk.is_recv();
@@ -382,6 +509,14 @@ fn fam_progress<T: Payload>(c: &Case, cx: &mut Ctx) -> Outcome {
     sc.finish(cx.lin_budget, &mut cx.obs, &mut cx.samples, &mut cx.lin_states)
 }
 fn space_progress(cs: &mut Vec<Case>, class: &'static str) {
+    // thread-exit cases (a == 8): side b, flavour d
+    for b in 0..2 {
+        for d in [0, 4] {
+            for _ in 0..4 {
+                cs.push(Case { fam: "progress", class, cap: Some(0), a: 8, b, c: 0, d, seed: 0 });
+            }
+        }
+    }
     for cap in [Some(0), Some(1)] {
         for a in 0..8 {
             for b in 0..4 {
